@@ -30,6 +30,14 @@ CHECKS = {
                 technique="exhaustive enumeration of readiness schedules (non-writable subsets x dead subsets x service orders) of one delivery on the real MessageManager, lock-step reference plus independent notice counting",
                 text="For each published kind every subset of recipients reported not writable, every subset dead at send time (FIN/RST, failing at the header or at the payload send), every service order and both hash orders are executed; deliveries and FAILED_MESSAGE notices are compared with the reference hub and counted independently of it; loggers must be waited for; notices about FAILED_MESSAGE / RTMA_LOG* must never appear.",
                 note="Trusted: virtual TCP model, reference hub; the count for a dead subscriber removed by a nested delivery before its turn is unspecified (accepted 0 or 1, consistently)."),
+    "C06": dict(engine="MMX+SPEC+CLX", level="model_checking", ref="DESIGN.md 4/C06",
+                technique="explicit-state BFS over connect/disconnect histories of the real MessageManager (lock-step reference, independent verdict function, duplicate-id invariant), exhaustive dynamic-id wrap runs, exhaustive option combinations through the real Client entry points",
+                text="All connect/disconnect histories of 2-3 connection slots over the full connect alphabet are explored to a fixpoint; each verdict (acknowledged id / refusal) is compared with an independent reading of the statement and the no-duplicate-id invariant is evaluated in every state; the dynamic cursor is driven through its wrap for every subset of kept-alive dynamic clients; every combination of logger/daemon/allow_multiple/id/name through Client.connect (keyword and positional) and client_context is checked on the wire and in the manager's CLIENT_INFO.",
+                note="Trusted: virtual TCP model, reference hub; the verdict at id == DYN_MOD_ID_START and for a unique newcomer reusing a non-unique module's name is treated as unspecified."),
+    "C18": dict(engine="MMX", level="model_checking", ref="DESIGN.md 4/C18",
+                technique="exhaustive enumeration of interval sequences (content alphabet x timer steps) on the real MessageManager with a virtual clock; observer-derived oracle",
+                text="Every sequence of 2-3 reporting intervals over the content alphabet (0..300 distinct types incl. 63/64/65/127/128/129, repeated types, a 65535 count) and timer steps (TIMING only / TIMING+TRAFFIC) is executed; each TIMING_MESSAGE and each MESSAGE_TRAFFIC report group is compared with what an always-served logger observed in the same interval; ModulePID entries are checked.",
+                note="Trusted: virtual TCP model and clock; only valid destination ids are published (whether refused messages count is unspecified)."),
 }
 
 ALL = [f"C{i:02d}" for i in range(1, 20)]
